@@ -254,6 +254,18 @@ impl<B: Backend> Runner<B> {
     /// possibly stale, already computed firewalls as user-level roots, so the
     /// history continues behind the finding. Returns the firewalls to request.
     fn kf1_targets(&self, roots: &[u32]) -> Vec<u32> {
+        // The engine repairs every firewall the roots recorded, whether or not
+        // the roots still reach it: those firewalls are re-verified (and
+        // possibly re-executed, gaining new edges) like roots of their own.
+        let mut all_roots: Vec<u32> = roots.to_vec();
+        for m in self.prev_closure(roots) {
+            if matches!(self.prog.nodes[m as usize].kind, Kind::Fw | Kind::CyF)
+                && !all_roots.contains(&m)
+            {
+                all_roots.push(m);
+            }
+        }
+        let roots: &[u32] = &all_roots;
         let mut now_all = BTreeSet::new();
         let mut reads_now = BTreeMap::new();
         for r in roots {
